@@ -98,19 +98,19 @@ Definition M_SYMTAB : N := 17.     Definition M_ATTRINFO : N := 21.  Definition 
 
 Record cfg := mkCfg {
   c_reserve_hdr : bool;     (* group / dataset headers allocated at max_hdr (fix 9ee6197); false = exact size *)
-  c_reserve_link : bool;    (* link object headers allocated at max_hdr (notes/fixes/reserve-link-headers) *)
+  c_reserve_link : bool;    (* link object headers allocated at max_hdr (fix 0d24a11) *)
   c_extend_close : bool;    (* Close extends the file to the allocator's end of file (fix 72cccd1) *)
   c_reserve_v0 : bool;      (* superblock v0 root structures reserved in the allocator (fix 3905a26) *)
   c_precheck : bool;        (* creations / hard links check linkToParent's conditions before allocating or writing
-                               (notes/fixes/check-link-before-allocating) *)
+                               (fix e5d916a, link pre-check) *)
   c_attrinfo : bool }.      (* transitionToDenseAttributes checks that the attribute info message fits before it
-                               allocates the dense storage (notes/fixes/attrinfo-check-before-dense-write) *)
+                               allocates the dense storage (fix 8199862) *)
 
 (* the configurations the theorems are about: all extent-related repairs in, the two error-path patches
    present or not *)
 Definition gcfg (pre ai : bool) := mkCfg true true true true pre ai.
 Definition cfg_fixed := gcfg true true.
-Definition cfg_head := gcfg false true.                           (* /repo at a539b60 (attribute-info check in, link pre-check not) *)
+Definition cfg_head := gcfg false true.                           (* /repo before e5d916a (link pre-check not yet in) *)
 Definition cfg_repo := mkCfg true false true true false false.     (* before 0d24a11 (link object headers at exact size) *)
 Definition cfg_exact_hdr := mkCfg false false true true false false.   (* before 9ee6197 *)
 Definition cfg_no_extend := mkCfg true true false true false false.    (* before 72cccd1 *)
